@@ -277,6 +277,15 @@ func ruleAtomic(c *Ctx, rule string, only map[string]bool) {
 					if !ok || isSyncType(fv.Type()) {
 						continue
 					}
+					mutable := false
+					for _, st := range p.FieldStores(t, fl) {
+						if !st.Fresh {
+							mutable = true
+						}
+					}
+					if !mutable {
+						continue // immutable after construction: may be read anywhere
+					}
 					for cls := range count {
 						if strings.HasPrefix(cls, t+".") {
 							c.CheckAt(rule, short(f)+":"+t+"."+fl+":inside-critical-section", fa, l.Held(fa).Has(cls), "field of the locked object accessed outside the critical section")
